@@ -151,6 +151,7 @@ inductive Msg (Ct : Type) where
   /-- anything the receiving side cannot decode as the message it waits for
   (wrong constructor id, truncated, bad message-id type). -/
   | junk
+  deriving DecidableEq
 
 /-- The composite primitives, as parameters. -/
 structure XP (Ct : Type) where
